@@ -92,3 +92,44 @@ package ugm
 //@   loop 2: exhaustive
 //@   loop 2: each !(ut.userName in newUserLimits[queuePath]) ==> ncalls(ugm.UserTracker.setLimits) == iter(ncalls(ugm.UserTracker.setLimits)) + 1
 //@   at[wild] call ugm.UserTracker.setLimits#1: assert arg0 == ut && arg1 == queuePath && arg2 == newLimitConfig.maxResources && arg3 == newLimitConfig.maxApplications && arg4 && !arg5
+
+// ---------------------------------------------------------------- manager: user and group are charged / asked together
+
+// the same usage object is booked for the user and for the group resolved for the application, under the same queue
+// path and application id; valid input always reaches the user tracker
+//@ func (m *Manager) IncreaseTrackedResource(queuePath, applicationID string, usage *resources.Resource, user security.UserGroup)
+//@   props C05
+//@   sweep
+//@   mode nopanic=off
+//@   at[user] call ugm.UserTracker.increaseTrackedResource#1: assert arg0 == userTracker && arg1 == queuePath && arg2 == applicationID && arg3 == usage
+//@   at[group] call ugm.GroupTracker.increaseTrackedResource#1: assert arg0 == groupTracker && arg1 == queuePath && arg2 == applicationID && arg3 == usage && ncalls(ugm.UserTracker.increaseTrackedResource) == 1
+//@   ensures[charged] queuePath != "" && applicationID != "" && usage != nil && user.User != "" ==> ncalls(ugm.UserTracker.increaseTrackedResource) == 1
+//@   ensures[ignored] !(queuePath != "" && applicationID != "" && usage != nil && user.User != "") ==> ncalls(ugm.UserTracker.increaseTrackedResource) == 0 && ncalls(ugm.GroupTracker.increaseTrackedResource) == 0
+
+//@ func (m *Manager) DecreaseTrackedResource(queuePath, applicationID string, usage *resources.Resource, user security.UserGroup, removeApp bool)
+//@   props C05
+//@   sweep
+//@   mode nopanic=off
+//@   at[user] call ugm.UserTracker.decreaseTrackedResource#1: assert arg0 == userTracker && arg1 == queuePath && arg2 == applicationID && arg3 == usage && arg4 == removeApp
+//@   at[group] call ugm.GroupTracker.decreaseTrackedResource#1: assert arg0 == groupTracker && arg1 == queuePath && arg2 == applicationID && arg3 == usage && arg4 == removeApp && ncalls(ugm.UserTracker.decreaseTrackedResource) == 1
+//@   at[grouplookup] call ugm.UserTracker.getGroupForApp#1: assert ncalls(ugm.UserTracker.decreaseTrackedResource) == 0
+
+// headroom is the component-wise minimum of the user's and the group's answer whenever the application has a group
+// tracker; an application is admitted only if the user AND (when tracked) the group say yes
+//@ spec abstract ucan(m *Manager) bool
+//@ spec abstract gcan(m *Manager) bool
+//@ func (m *Manager) Headroom(queuePath, applicationID string, user security.UserGroup) (hr *resources.Resource)
+//@   props C05
+//@   sweep
+//@   mode nopanic=off
+//@   at[both] call resources.ComponentWiseMin#1: assert arg0 == userHeadroom && arg1 == groupHeadroom
+//@   ensures[asked] ncalls(ugm.UserTracker.headroom) == 1
+//@   ensures[min] ncalls(ugm.GroupTracker.headroom) == 1 ==> ncalls(resources.ComponentWiseMin) == 1
+
+//@ func (m *Manager) CanRunApp(queuePath, applicationID string, user security.UserGroup) (ok bool)
+//@   props C05
+//@   sweep
+//@   mode nopanic=off
+//@   at[user] call ugm.UserTracker.canRunApp#1 after: assume ret <==> ucan(m)
+//@   at[group] call ugm.GroupTracker.canRunApp#1 after: assume ret <==> gcan(m)
+//@   ensures[both] ok ==> ncalls(ugm.UserTracker.canRunApp) == 1 && ucan(m) && (ncalls(ugm.GroupTracker.canRunApp) == 1 ==> gcan(m))
